@@ -1,4 +1,4 @@
 import SA.Model.Accept
 namespace SA.Drv.Accept
-def entries : List (String × (List String → String)) := [("hol", SA.Accept.handleHol), ("stall", SA.Accept.handleStall), ("xtalk", SA.Accept.handleXtalk), ("isolate", SA.Accept.handleIsolate)]
+def entries : List (String × (List String → String)) := [("hol", SA.Accept.handleHol), ("stall", SA.Accept.handleStall), ("xtalk", SA.Accept.handleXtalk), ("isolate", SA.Accept.handleIsolate), ("recon", SA.Accept.handleRecon)]
 end SA.Drv.Accept
